@@ -310,8 +310,11 @@ def run_linear(c, rec):
     Bm = X[:, 1:n + 1] - a[:, None]
     require(np.max(np.abs(a - xstar) / sd) <= 1e-6 * max(1.0, np.max(np.abs(xstar) / sd)), "direct sampling: offset of the draws is not the closed-form posterior mean",
             got=a, want=xstar)
-    require(maxdiff(Bm @ Bm.T, C) <= 1e-6 * float(np.max(np.abs(C))), "direct sampling: covariance of the draws is not the closed-form posterior covariance",
-            got=Bm @ Bm.T, want=C)
+    # (the covariance is read from differences of draws: round-off eps * |mean| * |B| per entry; otherwise the documented closed
+    # form is accurate to working precision also for vague priors)
+    tolC = 1e-7 * float(np.max(np.abs(C))) + 1e-12 * float(np.max(np.abs(a))) * float(np.max(np.abs(Bm))) * (n + 1)
+    require(maxdiff(Bm @ Bm.T, C) <= tolC, "direct sampling: covariance of the draws is not the closed-form posterior covariance",
+            got=Bm @ Bm.T, want=C, max_err=maxdiff(Bm @ Bm.T, C), tol=tolC)
     require(maxdiff(X[:, n + 1], a + Bm @ E[n + 1]) <= 1e-8 * (float(np.max(np.abs(a))) + float(np.max(np.abs(Bm)))),
             "direct sampling: draws are not affine in the normal vector")
     require([i for i, _ in log] == list(range(n + 2)) and all(maxdiff(s, X[:, i]) == 0 for i, s in log), "direct sampling: callback not called once per draw with that draw")
